@@ -51,9 +51,10 @@ def run(ctx: core.Ctx) -> int:
     q = ctx.quick
     rnd = random.Random(ctx.seed)
     ctx.assumptions += [
-        "options that redirect the header into a .license sibling are not part of the histories (a sibling shadows the "
-        "file's own header by specification); files whose header ALWAYS lives in the sibling (uncommentable / binary / "
-        "unknown types with --fallback-dot-license) have histories of their own, with pre-existing sibling contents",
+        "every seventh history moves the header into a .license sibling at one step (--force-dot-license; a sibling shadows the "
+        "file's own header by specification, so what the file declared has to be carried over); files whose header ALWAYS lives "
+        "in the sibling (uncommentable / binary / unknown types with --fallback-dot-license) have histories of their own, with "
+        "pre-existing sibling contents",
         "under a template that does not render contributors, contributor lines are not required to survive",
         "--skip-existing on a file that already declares something is a documented no-op",
     ]
@@ -80,8 +81,14 @@ def run(ctx: core.Ctx) -> int:
                 kind = "code"
             seed = f"{ctx.seed}|{len(cases)}"
             steps = []
+            # in some histories one step moves the header into a .license sibling (--force-dot-license): what the file
+            # declared so far stays declared, and later steps accumulate in the sibling
+            force_at = (hi // 7) % len(h) if hi % 7 == 3 else None
+            forced = False
             for si, s in enumerate(h):
-                fl = flavour_for(random.Random(f"{seed}|{si}"), sname, styles)
+                fl = flavour_for(random.Random(f"{seed}|{si}"), sname if not forced else None, styles)
+                if si == force_at:
+                    fl, forced = {"dot": "force"}, True
                 steps.append(anncases.step_of(s["b"], rnd, [fname], fl, must=True, pick_seed=f"{seed}|{s['b']['name']}"))
             cases.append({"tid": len(cases) + 1, "files": [{"name": fname, "kind": kind, "style_name": sname,
                                                             "eol": ["\n", "\r\n", "\r"][len(cases) % 3]}],
